@@ -1,490 +1,1 @@
-(* C20 - proofs.  Part 1: the Deferred model (reachable states).  Part 2: the
-   matchers and extract_result on a Deferred in each state.  Part 3: passivity as
-   a simulation between a history and its erasure.  Part 4: the statement. *)
 From TT Require Import Lib.Base Model.Deferred Model.DeferredMatchers Spec.C20 Corr.C20.
-
-(* ------------------------------------------------------------------ *)
-(* Part 1: reachable Deferreds                                          *)
-(* ------------------------------------------------------------------ *)
-(* unfired: no result yet; fired: a result and no pending callback *)
-Definition wf_d (d : deferred) : Prop :=
-  (d_called d = false /\ d_result d = None)
-  \/ (d_called d = true /\ d_callbacks d = [] /\ exists x, d_result d = Some x).
-
-Lemma wf_new : wf_d new_deferred.
-Proof. left. split; reflexivity. Qed.
-
-Lemma wf_cases d : wf_d d ->
-  (exists cbs, d = mkD false None cbs) \/ (exists x, d = mkD true (Some x) []).
-Proof.
-  destruct d as [c r cbs]. intros [[H1 H2]|[H1 [H2 [x H3]]]]; cbn in *; subst.
-  - left. eexists; reflexivity.
-  - right. eexists; reflexivity.
-Qed.
-
-Lemma add_unfired p cbs lg : add_callbacks p (mkD false None cbs) lg = (mkD false None (cbs ++ [p]), lg).
-Proof. reflexivity. Qed.
-
-Lemma add_fired p x lg :
-  add_callbacks p (mkD true (Some x) []) lg = (mkD true (Some (fst (step_cb p x lg))) [], snd (step_cb p x lg)).
-Proof. unfold add_callbacks, run_callbacks. cbn. destruct (step_cb p x lg). reflexivity. Qed.
-
-Lemma fire_unfired x cbs lg :
-  fire x (mkD false None cbs) lg = Some (mkD true (Some (fst (run_cbs cbs x lg))) [], snd (run_cbs cbs x lg)).
-Proof. unfold fire, run_callbacks. cbn. destruct (run_cbs cbs x lg). reflexivity. Qed.
-
-Lemma fire_fired x y lg : fire x (mkD true (Some y) []) lg = None.
-Proof. reflexivity. Qed.
-
-Lemma step_pass x lg : step_cb (CPass, CPass) x lg = (x, lg).
-Proof. destruct x; reflexivity. Qed.
-
-(* ------------------------------------------------------------------ *)
-(* Part 2: matchers and extract_result, state by state                  *)
-(* ------------------------------------------------------------------ *)
-Lemma match_unfired m cbs lg :
-  match_deferred m (mkD false None cbs) lg
-  = (expect_match m SUnfired, mkD false None (cbs ++ [(CPass, CPass)]), lg).
-Proof. destruct m; reflexivity. Qed.
-
-Lemma match_val m v lg :
-  match_deferred m (mkD true (Some (RVal v)) []) lg
-  = (expect_match m (SVal v), mkD true (Some (RVal v)) [], lg).
-Proof. destruct m; reflexivity. Qed.
-
-Lemma match_err m e lg :
-  match_deferred m (mkD true (Some (RErr e)) []) lg
-  = (expect_match m (SErr e),
-     mkD true (Some (match m with MNoResult => RErr e | _ => RVal 0 end)) [], lg).
-Proof. destruct m; reflexivity. Qed.
-
-(* the verdict is the one the state names; .called is untouched; an unfired Deferred and a success
-   are left as they are; a failure looked at by succeeded()/failed() becomes a None success *)
-Lemma match_spec m d lg : wf_d d ->
-  let '(b, d', lg') := match_deferred m d lg in
-  b = expect_match m (state_of d) /\ d_called d' = d_called d /\ lg' = lg /\ wf_d d'
-  /\ state_of d' = (if consumes m (state_of d) then SVal 0 else state_of d).
-Proof.
-  intros H. destruct (wf_cases d H) as [[cbs ->]|[[v|e] ->]].
-  - rewrite match_unfired. repeat split. + left; split; reflexivity. + destruct m; reflexivity.
-  - rewrite match_val. repeat split. + right; cbn; eauto. + destruct m; reflexivity.
-  - rewrite match_err. repeat split. + right; cbn; eauto. + destruct m; reflexivity.
-Qed.
-
-Lemma extract_spec d lg : wf_d d ->
-  let '(r, d', lg') := extract_result d lg in
-  r = expect_extract (state_of d) /\ lg' = lg /\ wf_d d'.
-Proof.
-  intros H. destruct (wf_cases d H) as [[cbs ->]|[[v|e] ->]]; cbn; repeat split;
-    try (left; split; reflexivity); right; cbn; eauto.
-Qed.
-
-Lemma trichotomy d lg : wf_d d ->
-  let b1 := fst (fst (match_deferred MNoResult d lg)) in
-  let b2 := fst (fst (match_deferred (MSucceeded IAlways) d lg)) in
-  let b3 := fst (fst (match_deferred (MFailed IAlways) d lg)) in
-  match state_of d with
-  | SUnfired => b1 = true /\ b2 = false /\ b3 = false
-  | SVal _ => b1 = false /\ b2 = true /\ b3 = false
-  | SErr _ => b1 = false /\ b2 = false /\ b3 = true
-  end.
-Proof.
-  intros H. destruct (wf_cases d H) as [[cbs ->]|[[v|e] ->]]; cbn; repeat split.
-Qed.
-
-Lemma inner_spec m d lg : wf_d d ->
-  (fst (fst (match_deferred (MSucceeded m) d lg)) = true
-     <-> exists v, state_of d = SVal v /\ inner_match m v = true)
-  /\ (fst (fst (match_deferred (MFailed m) d lg)) = true
-     <-> exists e, state_of d = SErr e /\ inner_match m e = true).
-Proof.
-  intros H. destruct (wf_cases d H) as [[cbs ->]|[[v|e] ->]]; cbn; split; split;
-    try discriminate; try (intros [x [E _]]; discriminate).
-  - intros E. exists v. split; [reflexivity|exact E].
-  - intros [x [E E']]. injection E as ->. exact E'.
-  - intros E. exists e. split; [reflexivity|exact E].
-  - intros [x [E E']]. injection E as ->. exact E'.
-Qed.
-
-(* every operation keeps the Deferred well formed *)
-Lemma step_wf o d lg : wf_d d -> wf_d (snd (fst (step o d lg))).
-Proof.
-  intros H. destruct o as [m|v|e|cb eb|]; cbn [step].
-  - pose proof (match_spec m d lg H) as M. destruct (match_deferred m d lg) as [[b d'] lg']. apply M.
-  - destruct (wf_cases d H) as [[cbs ->]|[x ->]].
-    + rewrite fire_unfired. cbn. right; cbn; eauto.
-    + rewrite fire_fired. exact H.
-  - destruct (wf_cases d H) as [[cbs ->]|[x ->]].
-    + rewrite fire_unfired. cbn. right; cbn; eauto.
-    + rewrite fire_fired. exact H.
-  - destruct (wf_cases d H) as [[cbs ->]|[x ->]].
-    + rewrite add_unfired. cbn. left; split; reflexivity.
-    + rewrite add_fired. cbn. right; cbn; eauto.
-  - pose proof (extract_spec d lg H) as M. destruct (extract_result d lg) as [[r d'] lg']. apply M.
-Qed.
-
-(* ------------------------------------------------------------------ *)
-(* Part 3: passivity - a history and its erasure                        *)
-(* ------------------------------------------------------------------ *)
-Definition is_pass (p : cbpair) : bool :=
-  match p with (CPass, CPass) => true | _ => false end.
-Definition strip (cbs : list cbpair) : list cbpair := filter (fun p => negb (is_pass p)) cbs.
-
-Lemma run_cbs_strip cbs : forall x lg, run_cbs cbs x lg = run_cbs (strip cbs) x lg.
-Proof.
-  induction cbs as [|p r IH]; intros; [reflexivity|]. cbn [strip filter].
-  destruct (is_pass p) eqn:E; cbn [negb].
-  - destruct p as [[] []]; try discriminate. cbn [run_cbs]. rewrite step_pass. apply IH.
-  - cbn [run_cbs]. destruct (step_cb p x lg). apply IH.
-Qed.
-
-Lemma strip_app a b : strip (a ++ b) = strip a ++ strip b.
-Proof. apply filter_app. Qed.
-
-(* same result, same .called, same callbacks up to the capture pairs the matchers leave behind *)
-Definition sim (d d' : deferred) : Prop :=
-  d_called d = d_called d' /\ d_result d = d_result d' /\ strip (d_callbacks d) = strip (d_callbacks d').
-
-Lemma sim_refl d : sim d d.
-Proof. repeat split. Qed.
-
-Lemma sim_cases d d' : wf_d d -> wf_d d' -> sim d d' ->
-  (exists cbs cbs', d = mkD false None cbs /\ d' = mkD false None cbs' /\ strip cbs = strip cbs')
-  \/ (exists x, d = mkD true (Some x) [] /\ d' = mkD true (Some x) []).
-Proof.
-  intros H H' (S1 & S2 & S3).
-  destruct (wf_cases d H) as [[cbs ->]|[x ->]]; destruct (wf_cases d' H') as [[cbs' ->]|[x' ->]];
-    cbn in *; try discriminate.
-  - left. eauto.
-  - right. injection S2 as ->. eauto.
-Qed.
-
-(* one operation that is not a match, performed on both sides *)
-Lemma step_sim o d d' lg : wf_d d -> wf_d d' -> sim d d' ->
-  (forall m, o <> OMatch m) ->
-  let '(out, d1, lg1) := step o d lg in
-  let '(out', d1', lg1') := step o d' lg in
-  out = out' /\ lg1 = lg1' /\ sim d1 d1'.
-Proof.
-  intros H H' S Hm.
-  destruct (sim_cases d d' H H' S) as [(cbs & cbs' & -> & -> & E)|(x & -> & ->)].
-  - destruct o as [m|v|e|cb eb|]; cbn [step].
-    + exfalso. eapply Hm; reflexivity.
-    + rewrite !fire_unfired. rewrite (run_cbs_strip cbs), (run_cbs_strip cbs'), E. repeat split.
-    + rewrite !fire_unfired. rewrite (run_cbs_strip cbs), (run_cbs_strip cbs'), E. repeat split.
-    + rewrite !add_unfired. repeat split. cbn. rewrite !strip_app, E. reflexivity.
-    + cbn. repeat split. cbn. rewrite !strip_app, E. reflexivity.
-  - destruct (step o (mkD true (Some x) []) lg) as [[out d1] lg1]. repeat split.
-Qed.
-
-Lemma erase_cons o r d lg :
-  erase (o :: r) d lg =
-  (match o with
-   | OMatch m => if consumes m (state_of d) then [OAdd CPass (CConst 0)] else []
-   | _ => [o]
-   end) ++ erase r (snd (fst (step o d lg))) (snd (step o d lg)).
-Proof. cbn [erase]. destruct (step o d lg) as [[out d'] lg']. reflexivity. Qed.
-
-Lemma run_ops_cons o r d lg :
-  run_ops (o :: r) d lg =
-  let '(out, d', lg') := step o d lg in
-  let '(xs, d'', lg'') := run_ops r d' lg' in
-  (mkO (state_of d) (d_called d) out (state_of d') (d_called d') :: xs, d'', lg'').
-Proof. reflexivity. Qed.
-
-Definition final_d (r : list oobs * deferred * log) : deferred := snd (fst r).
-Definition final_log (r : list oobs * deferred * log) : log := snd r.
-Definition step_d (o : op) (d : deferred) (lg : log) : deferred := snd (fst (step o d lg)).
-Definition step_log (o : op) (d : deferred) (lg : log) : log := snd (step o d lg).
-
-Lemma run_ops_final o r d lg :
-  final_d (run_ops (o :: r) d lg) = final_d (run_ops r (step_d o d lg) (step_log o d lg))
-  /\ final_log (run_ops (o :: r) d lg) = final_log (run_ops r (step_d o d lg) (step_log o d lg)).
-Proof.
-  rewrite run_ops_cons. unfold step_d, step_log, final_d, final_log.
-  destruct (step o d lg) as [[out d1] lg1]. cbn [fst snd].
-  destruct (run_ops r d1 lg1) as [[xs d2] lg2]. split; reflexivity.
-Qed.
-
-(* a match on one side; on the other side nothing, or the consuming errback *)
-Lemma match_sim m d d' lg : wf_d d -> wf_d d' -> sim d d' ->
-  step_log (OMatch m) d lg = lg
-  /\ if consumes m (state_of d)
-     then step_log (OAdd CPass (CConst 0)) d' lg = lg
-          /\ sim (step_d (OMatch m) d lg) (step_d (OAdd CPass (CConst 0)) d' lg)
-     else sim (step_d (OMatch m) d lg) d'.
-Proof.
-  intros H H' S. unfold step_d, step_log. cbn [step].
-  destruct (sim_cases d d' H H' S) as [(cbs & cbs' & -> & -> & E)|([v|e] & -> & ->)].
-  - rewrite match_unfired. cbn [fst snd state_of d_result].
-    assert (consumes m SUnfired = false) as -> by (destruct m; reflexivity).
-    split; [reflexivity|]. repeat split. cbn. rewrite strip_app, E. cbn. apply app_nil_r.
-  - rewrite match_val. cbn [fst snd state_of d_result].
-    assert (consumes m (SVal v) = false) as -> by (destruct m; reflexivity).
-    split; [reflexivity|]. apply sim_refl.
-  - rewrite match_err. cbn [fst snd state_of d_result]. split; [reflexivity|].
-    destruct m; cbn [consumes]; try apply sim_refl; rewrite add_fired; cbn; split; try reflexivity; apply sim_refl.
-Qed.
-
-(* the history and its erasure end in similar Deferreds with the same recorded values *)
-Lemma erase_sim ops : forall d d' lg, wf_d d -> wf_d d' -> sim d d' ->
-  final_log (run_ops ops d lg) = final_log (run_ops (erase ops d lg) d' lg)
-  /\ sim (final_d (run_ops ops d lg)) (final_d (run_ops (erase ops d lg) d' lg)).
-Proof.
-  induction ops as [|o r IH]; intros d d' lg H H' S.
-  - cbn. split; [reflexivity|exact S].
-  - rewrite erase_cons. destruct (run_ops_final o r d lg) as [-> ->].
-    fold (step_d o d lg). fold (step_log o d lg).
-    pose proof (step_wf o d lg H) as Hwf1. fold (step_d o d lg) in Hwf1.
-    assert (Hnm : (forall m, o <> OMatch m) ->
-                  final_log (run_ops r (step_d o d lg) (step_log o d lg))
-                  = final_log (run_ops ([o] ++ erase r (step_d o d lg) (step_log o d lg)) d' lg)
-                  /\ sim (final_d (run_ops r (step_d o d lg) (step_log o d lg)))
-                         (final_d (run_ops ([o] ++ erase r (step_d o d lg) (step_log o d lg)) d' lg))).
-    { intros Hm. cbn [app]. destruct (run_ops_final o (erase r (step_d o d lg) (step_log o d lg)) d' lg) as [-> ->].
-      pose proof (step_sim o d d' lg H H' S Hm) as St.
-      pose proof (step_wf o d' lg H') as Hwf1'. unfold step_d, step_log in *.
-      destruct (step o d lg) as [[out d1] lg1]. destruct (step o d' lg) as [[out' d1'] lg1'].
-      cbn [fst snd] in *. destruct St as (_ & <- & S1). apply IH; assumption. }
-    destruct o as [m|v|e|cb eb|]; try (apply Hnm; intros; discriminate).
-    destruct (match_sim m d d' lg H H' S) as [El Hc]. rewrite El in *.
-    destruct (consumes m (state_of d)).
-    + destruct Hc as [El' S1]. cbn [app].
-      destruct (run_ops_final (OAdd CPass (CConst 0)) (erase r (step_d (OMatch m) d lg) lg) d' lg) as [-> ->].
-      rewrite El'. apply IH; [exact Hwf1| |exact S1].
-      apply (step_wf (OAdd CPass (CConst 0)) d' lg H').
-    + cbn [app]. apply IH; assumption.
-Qed.
-
-(* ------------------------------------------------------------------ *)
-(* Part 4: the statement                                                *)
-(* ------------------------------------------------------------------ *)
-Lemma dres_eqb_spec a b : dres_eqb a b = true <-> a = b.
-Proof.
-  destruct a, b; simpl; split; intro H; try discriminate;
-    try (apply Nat.eqb_eq in H; congruence); injection H as ->; apply Nat.eqb_refl.
-Qed.
-Lemma dstate_eqb_spec a b : dstate_eqb a b = true <-> a = b.
-Proof.
-  destruct a, b; simpl; split; intro H; try reflexivity; try discriminate;
-    try (apply Nat.eqb_eq in H; congruence); injection H as ->; apply Nat.eqb_refl.
-Qed.
-Lemma xexc_eqb_spec a b : xexc_eqb a b = true <-> a = b.
-Proof.
-  destruct a, b; simpl; split; intro H; try reflexivity; try discriminate;
-    try (apply Nat.eqb_eq in H; congruence); injection H as ->; apply Nat.eqb_refl.
-Qed.
-Lemma opout_eqb_spec a b : opout_eqb a b = true <-> a = b.
-Proof.
-  destruct a, b; cbn [opout_eqb]; split; intro H; try reflexivity; try discriminate.
-  - apply (proj1 (bool_eqb_spec _ _)) in H; congruence.
-  - injection H as ->; apply bool_eqb_spec; reflexivity.
-  - apply (proj1 (res_eqb_spec Nat.eqb xexc_eqb Nat.eqb_eq xexc_eqb_spec _ _)) in H; congruence.
-  - injection H as ->. apply (res_eqb_spec Nat.eqb xexc_eqb Nat.eqb_eq xexc_eqb_spec). reflexivity.
-Qed.
-Lemma uret_eqb_spec a b : uret_eqb a b = true <-> a = b.
-Proof.
-  destruct a, b; simpl; split; intro H; try discriminate;
-    try (apply Nat.eqb_eq in H; congruence); try (apply xexc_eqb_spec in H; congruence);
-    injection H as ->; try apply Nat.eqb_refl; apply xexc_eqb_spec; reflexivity.
-Qed.
-Lemma log_eqb_spec a b : log_eqb a b = true <-> a = b.
-Proof. apply list_eqb_spec. apply pair_eqb_spec; [apply Nat.eqb_eq|apply dres_eqb_spec]. Qed.
-
-Lemma op_okb_iff o x : op_okb o x = true <-> Op_spec o x.
-Proof.
-  unfold op_okb, Op_spec. destruct o as [m|v|e|cb eb|]; try tauto.
-  - rewrite !andb_true_iff, opout_eqb_spec, bool_eqb_spec. unfold after_okb.
-    destruct (p_before x) as [|v|e]; destruct m; rewrite ?dstate_eqb_spec; try tauto.
-    + rewrite negb_true_iff. split; intros (H1 & H2 & H3); repeat split; auto.
-      * intros e' E. rewrite E in H3. discriminate.
-      * destruct (p_after x); try reflexivity. exfalso. eapply H3; reflexivity.
-    + rewrite negb_true_iff. split; intros (H1 & H2 & H3); repeat split; auto.
-      * intros e' E. rewrite E in H3. discriminate.
-      * destruct (p_after x); try reflexivity. exfalso. eapply H3; reflexivity.
-  - apply opout_eqb_spec.
-Qed.
-
-Lemma forall2b_iff {A B} (p : A -> B -> bool) (P : A -> B -> Prop) :
-  (forall a b, p a b = true <-> P a b) -> forall l m, forall2b p l m = true <-> Forall2 P l m.
-Proof.
-  intros H l; induction l as [|a l IH]; intros [|b m]; cbn [forall2b]; split; intro E;
-    try constructor; try discriminate; try (inversion E; fail).
-  - apply andb_true_iff in E as [E1 E2]. apply H; exact E1.
-  - apply andb_true_iff in E as [E1 E2]. apply IH; exact E2.
-  - inversion E; subst. apply andb_true_iff. split; [apply H|apply IH]; assumption.
-Qed.
-
-Lemma hist_okb_iff ops h : hist_okb ops h = true <-> Hist_spec ops h.
-Proof.
-  unfold hist_okb, Hist_spec.
-  rewrite !andb_true_iff, (forall2b_iff op_okb Op_spec op_okb_iff), !log_eqb_spec, dstate_eqb_spec, !bool_eqb_spec.
-  assert ((is_err (final_state (h_ops h)) || negb (h_unhandled h) = true)
-          <-> (h_unhandled h = true -> exists e, final_state (h_ops h) = SErr e)) as ->.
-  { destruct (final_state (h_ops h)), (h_unhandled h); cbn; split; intros; eauto; try discriminate;
-      match goal with H : true = true -> _ |- _ => destruct (H eq_refl); discriminate end. }
-  tauto.
-Qed.
-
-Lemma sync_okb_iff s o : sync_okb s o = true <-> Sync_spec s o.
-Proof.
-  unfold sync_okb, Sync_spec. rewrite !andb_true_iff, !uret_eqb_spec, (list_eqb_spec Nat.eqb Nat.eqb_eq). tauto.
-Qed.
-
-Lemma spec_okb_iff i o : spec_okb i o = true <-> Spec i o.
-Proof.
-  destruct i, o; cbn [spec_okb Spec]; try (split; [discriminate|contradiction]).
-  - apply hist_okb_iff.
-  - apply sync_okb_iff.
-Qed.
-
-(* ---- the model meets it ---- *)
-Lemma run_ops_spec ops : forall d lg, wf_d d -> Forall2 Op_spec ops (fst (fst (run_ops ops d lg))).
-Proof.
-  induction ops as [|o r IH]; intros d lg H; [constructor|]. rewrite run_ops_cons.
-  pose proof (step_wf o d lg H) as Hwf. specialize (IH (step_d o d lg) (step_log o d lg) Hwf).
-  unfold step_d, step_log in *.
-  assert (Hop : Op_spec o (mkO (state_of d) (d_called d) (fst (fst (step o d lg)))
-                               (state_of (snd (fst (step o d lg)))) (d_called (snd (fst (step o d lg)))))).
-  { destruct o as [m|v|e|cb eb|]; cbn [Op_spec step]; try exact I.
-    - pose proof (match_spec m d lg H) as M. destruct (match_deferred m d lg) as [[b d'] lg'].
-      destruct M as (-> & Mc & _ & _ & Mst). cbn [fst snd p_out p_before p_after p_cbefore p_cafter].
-      split; [reflexivity|]. split; [exact Mc|]. rewrite Mst.
-      destruct (state_of d), m; cbn; try reflexivity; try exact I; intros; discriminate.
-    - pose proof (extract_spec d lg H) as M. destruct (extract_result d lg) as [[r' d'] lg'].
-      destruct M as (-> & _). reflexivity. }
-  destruct (step o d lg) as [[out d1] lg1]. cbn [fst snd] in *.
-  destruct (run_ops r d1 lg1) as [[xs d2] lg2]. cbn [fst snd] in *. constructor; assumption.
-Qed.
-
-Lemma last_cons {A} (a : A) l d : last (a :: l) d = last l a.
-Proof. revert a; induction l as [|b l IH]; intros; [reflexivity|]. cbn [last] in *. apply IH. Qed.
-
-Lemma run_ops_last ops : forall d lg,
-  last (map p_after (fst (fst (run_ops ops d lg)))) (state_of d) = state_of (final_d (run_ops ops d lg))
-  /\ last (map p_cafter (fst (fst (run_ops ops d lg)))) (d_called d) = d_called (final_d (run_ops ops d lg)).
-Proof.
-  induction ops as [|o r IH]; intros d lg; [split; reflexivity|].
-  destruct (run_ops_final o r d lg) as [-> _]. rewrite run_ops_cons. unfold step_d, step_log.
-  destruct (step o d lg) as [[out d1] lg1]. cbn [fst snd]. specialize (IH d1 lg1).
-  destruct (run_ops r d1 lg1) as [[xs d2] lg2]. cbn [fst snd map p_after p_cafter] in *.
-  rewrite !last_cons. exact IH.
-Qed.
-
-Lemma model_hist_meets ops : Hist_spec ops (model_hist ops).
-Proof.
-  unfold model_hist, Hist_spec.
-  pose proof (run_ops_spec ops new_deferred [] wf_new) as Hops.
-  destruct (run_ops_last ops new_deferred []) as [Hl1 Hl2].
-  destruct (erase_sim ops new_deferred new_deferred [] wf_new wf_new (sim_refl _)) as [Hlog (S1 & S2 & _)].
-  unfold final_d, final_log in *.
-  destruct (run_ops ops new_deferred []) as [[xs d] lg].
-  destruct (run_ops (erase ops new_deferred []) new_deferred []) as [[xs' de] lge].
-  cbn [fst snd h_ops h_log h_unhandled h_elog h_efinal h_ecalled h_eunhandled] in *.
-  unfold final_state, final_called. cbn [state_of new_deferred d_result d_called] in Hl1, Hl2.
-  rewrite Hl1, Hl2. unfold state_of, unhandled. rewrite <- S2.
-  repeat split; auto.
-  intros Hu. destruct (d_result d) as [[v|e]|]; try discriminate. eauto.
-Qed.
-
-Lemma sync_like_direct s : sync_run_user (fired_stage s) = direct_run_user s.
-Proof. destruct s; reflexivity. Qed.
-
-Lemma sync_unfired : sync_run_user (StDeferred new_deferred) = URaised XNotFired.
-Proof. reflexivity. Qed.
-
-Lemma model_meets_Spec i : Spec i (model i).
-Proof.
-  destruct i as [ops|pos s]; cbn [model Spec].
-  - apply model_hist_meets.
-  - unfold Sync_spec, model_sync. cbn. rewrite sync_like_direct. repeat split.
-Qed.
-
-Lemma model_meets_spec i : spec_okb i (model i) = true.
-Proof. apply spec_okb_iff. apply model_meets_Spec. Qed.
-
-(* ---- the comparison ---- *)
-Lemma oobs_eqb_spec a b : oobs_eqb a b = true <-> a = b.
-Proof.
-  destruct a as [a1 a2 a3 a4 a5], b as [b1 b2 b3 b4 b5]. unfold oobs_eqb.
-  cbn [p_before p_cbefore p_out p_after p_cafter].
-  rewrite !andb_true_iff, !dstate_eqb_spec, !bool_eqb_spec, opout_eqb_spec. split.
-  - intros [[[[-> ->] ->] ->] ->]. reflexivity.
-  - intros H; injection H as -> -> -> -> ->. repeat split.
-Qed.
-
-Lemma hobs_eqb_spec a b : hobs_eqb a b = true <-> a = b.
-Proof.
-  destruct a as [a1 a2 a3 a4 a5 a6 a7], b as [b1 b2 b3 b4 b5 b6 b7]. unfold hobs_eqb.
-  cbn [h_ops h_log h_unhandled h_elog h_efinal h_ecalled h_eunhandled].
-  rewrite !andb_true_iff, (list_eqb_spec oobs_eqb oobs_eqb_spec), !log_eqb_spec, !bool_eqb_spec, dstate_eqb_spec.
-  split.
-  - intros [[[[[[-> ->] ->] ->] ->] ->] ->]. reflexivity.
-  - intros H; injection H as -> -> -> -> -> -> ->. repeat split.
-Qed.
-
-Lemma obs_eqb_alpha a b : obs_eqb a b = true <-> alpha a = alpha b.
-Proof.
-  destruct a as [x|x], b as [y|y]; cbn [obs_eqb alpha]; try (split; [discriminate|intros H; discriminate H]).
-  - rewrite hobs_eqb_spec. split; intros H; [subst; reflexivity|injection H as ->; reflexivity].
-  - unfold sobs_eqb, sobs_alpha. rewrite !andb_true_iff, !uret_eqb_spec, bool_eqb_spec. split.
-    + intros [[[-> ->] ->] ->]. reflexivity.
-    + intros H; injection H as -> -> -> ->. repeat split.
-Qed.
-
-(* ---- passivity, spelled out ---- *)
-(* after matching an unfired Deferred, firing it delivers to every later callback what it would have
-   delivered without the match; a success is unchanged; a failure looked at by succeeded()/failed() is
-   consumed (a None success, nothing left to be logged) *)
-Lemma passive_unfired m cbs x lg :
-  let d1 := snd (fst (match_deferred m (mkD false None cbs) lg)) in
-  d_called d1 = false /\ fire x d1 lg = fire x (mkD false None cbs) lg.
-Proof.
-  rewrite match_unfired. cbn [fst snd]. split; [reflexivity|]. rewrite !fire_unfired.
-  rewrite (run_cbs_strip (cbs ++ _)), strip_app. cbn. rewrite app_nil_r, <- run_cbs_strip. reflexivity.
-Qed.
-
-Lemma passive_states m d lg : wf_d d ->
-  let d1 := snd (fst (match_deferred m d lg)) in
-  d_called d1 = d_called d
-  /\ snd (match_deferred m d lg) = lg
-  /\ (forall v, state_of d = SVal v -> state_of d1 = SVal v)
-  /\ (state_of d = SUnfired -> state_of d1 = SUnfired)
-  /\ (forall e, state_of d = SErr e -> m <> MNoResult -> state_of d1 = SVal 0 /\ handled d1 = true).
-Proof.
-  intros H. pose proof (match_spec m d lg H) as M. destruct (match_deferred m d lg) as [[b d1] lg1].
-  destruct M as (_ & Mc & -> & _ & Mst). cbn [fst snd]. split; [exact Mc|]. split; [reflexivity|].
-  rewrite Mst. repeat split.
-  - intros v E. rewrite E. destruct m; reflexivity.
-  - intros E. rewrite E. destruct m; reflexivity.
-  - rewrite H0 in Mst. destruct m; [contradiction| |]; exact Mst.
-  - rewrite H0 in Mst. unfold handled, unhandled. unfold state_of in Mst.
-    destruct m; [contradiction| |]; destruct (d_result d1) as [[?|?]|]; try discriminate; reflexivity.
-Qed.
-
-Lemma passive_histories ops :
-  final_log (run_ops ops new_deferred []) = final_log (run_ops (erase ops new_deferred []) new_deferred [])
-  /\ state_of (final_d (run_ops ops new_deferred []))
-     = state_of (final_d (run_ops (erase ops new_deferred []) new_deferred []))
-  /\ d_called (final_d (run_ops ops new_deferred []))
-     = d_called (final_d (run_ops (erase ops new_deferred []) new_deferred [])).
-Proof.
-  destruct (erase_sim ops new_deferred new_deferred [] wf_new wf_new (sim_refl _)) as [Hlog (S1 & S2 & _)].
-  split; [exact Hlog|]. unfold state_of. rewrite S2. split; [reflexivity|exact S1].
-Qed.
-
-Lemma extract_cases d lg : wf_d d ->
-  fst (fst (extract_result d lg)) =
-  match state_of d with SVal v => Ok v | SErr e => Raised (XUser e) | SUnfired => Raised XNotFired end.
-Proof.
-  intros H. pose proof (extract_spec d lg H) as M. destruct (extract_result d lg) as [[r d'] lg'].
-  destruct M as (-> & _). reflexivity.
-Qed.
-
-Lemma reachable_wf ops : wf_d (final_d (run_ops ops new_deferred [])).
-Proof.
-  assert (forall ops d lg, wf_d d -> wf_d (final_d (run_ops ops d lg))) as G.
-  { clear ops. induction ops as [|o r IH]; intros d lg H; [exact H|].
-    destruct (run_ops_final o r d lg) as [-> _]. apply IH. apply step_wf. exact H. }
-  apply G. exact wf_new.
-Qed.
